@@ -305,6 +305,7 @@ def r3(ck, F):
         if not ck.anchor("C07.R3", fn, b):
             continue
         tests = [t for bb, t in b.calls() if t["callee"].get("method") in ("is_enabled_for", "try_with_filter", "with_filter")]
+        nice = "Scope::next" if "Iterator" in fn else "SpanRef::parent"
         # ... and with the right polarity: a span is handed out only on a path where the per-filter test said "enabled"
         wrong = []
         for pth in PathEval(b).run():
@@ -315,10 +316,22 @@ def r3(ck, F):
                 wrong.append("a span is returned although is_enabled_for(filter) was false for it")
             if not verdicts and "try_with_filter" not in show(pth.ret):
                 wrong.append("a span is returned without a per-filter test on the path")
+        # ... and the span handed out keeps walking with the same filter: it is built with (or re-filtered by) the walker's
+        # own filter id, not taken as LookupSpan::span returns it (which carries "no filter": the next hop would be unfiltered)
+        for pth in PathEval(b).run():
+            if pth.end != "return" or pth.ret is None or pth.ret[0] != "agg" or pth.ret[2] != "Some" or not pth.ret[3]:
+                continue
+            v = pth.ret[3][0]
+            carries = (v[0] == "agg" and "SpanRef" in str(v[1]) and any(show(x) == "arg1.filter" for x in v[3])) or \
+                      (v[0] == "call" and v[1].endswith(("::with_filter", "::try_with_filter")) and any(show(x) == "arg1.filter" for x in v[2]))
+            if v[0] == "call" and v[1].endswith("::try_with_filter"):
+                carries = True
+            if not carries:
+                wrong.append("the span handed out does not carry the walker's filter id (%s): its own parent()/scope() would show spans this filter rejected" % show(v)[:70])
         if tests and wrong:
-            ck.bad("C07.R3", "%s skips spans disabled for the walker's filter" % fn.rsplit("::", 2)[-2] + "::" + fn.rsplit("::", 1)[-1], where(b.raw["sp"]), "; ".join(sorted(set(wrong))), fn=b.path)
+            ck.bad("C07.R3", "%s skips spans disabled for the walker's filter" % nice, where(b.raw["sp"]), "; ".join(sorted(set(wrong))), fn=b.path)
         elif tests:
-            ck.ok("C07.R3", "%s skips spans disabled for the walker's filter" % fn.rsplit("::", 2)[-2] + "::" + fn.rsplit("::", 1)[-1], fn=b.path)
+            ck.ok("C07.R3", "%s skips spans disabled for the walker's filter" % nice, fn=b.path)
         else:
             ck.bad("C07.R3", "%s skips spans disabled for the walker's filter" % fn, where(b.raw["sp"]), "no per-filter test in the scope walk", fn=b.path)
     wf = F.body(P + "with_filter")
